@@ -74,6 +74,8 @@ type bufferedUpdate struct {
 	updates   *ovsdb.TableUpdates
 	updates2  *ovsdb.TableUpdates2
 	lastTxnID string
+	// the monitor the notification was for
+	cookieID string
 }
 
 type epInfo struct {
@@ -652,7 +654,7 @@ func (o *ovsdbClient) update(params []json.RawMessage, reply *[]interface{}) err
 	verifPoint("update.beforeCacheLock")
 	db.cacheMutex.Lock()
 	if db.deferUpdates {
-		db.deferredUpdates = append(db.deferredUpdates, &bufferedUpdate{&updates, nil, ""})
+		db.deferredUpdates = append(db.deferredUpdates, &bufferedUpdate{&updates, nil, "", cookie.ID})
 		db.cacheMutex.Unlock()
 		return nil
 	}
@@ -694,7 +696,7 @@ func (o *ovsdbClient) update2(params []json.RawMessage, reply *[]interface{}) er
 	verifPoint("update.beforeCacheLock")
 	db.cacheMutex.Lock()
 	if db.deferUpdates {
-		db.deferredUpdates = append(db.deferredUpdates, &bufferedUpdate{nil, &updates, ""})
+		db.deferredUpdates = append(db.deferredUpdates, &bufferedUpdate{nil, &updates, "", cookie.ID})
 		db.cacheMutex.Unlock()
 		return nil
 	}
@@ -742,7 +744,7 @@ func (o *ovsdbClient) update3(params []json.RawMessage, reply *[]interface{}) er
 	verifPoint("update.beforeCacheLock")
 	db.cacheMutex.Lock()
 	if db.deferUpdates {
-		db.deferredUpdates = append(db.deferredUpdates, &bufferedUpdate{nil, &updates, lastTransactionID})
+		db.deferredUpdates = append(db.deferredUpdates, &bufferedUpdate{nil, &updates, lastTransactionID, cookie.ID})
 		db.cacheMutex.Unlock()
 		return nil
 	}
@@ -1121,43 +1123,39 @@ func (o *ovsdbClient) monitor(ctx context.Context, cookie MonitorCookie, reconne
 
 	// populate any deferred updates
 	db.deferUpdates = false
-	lastTxnID, err := o.applyDeferredUpdatesLocked(db)
-	if len(lastTxnID) > 0 {
-		db.monitors[cookie.ID].LastTransactionID = lastTxnID
-	}
-	return err
+	return o.applyDeferredUpdates(db)
 }
 
 // applyDeferredUpdates applies the updates that were deferred, in the order
-// they arrived. Must be called with the cache lock held.
+// they arrived, and records the transaction id of each for the monitor it was
+// sent to. Must be called with the cache lock held.
 func (o *ovsdbClient) applyDeferredUpdates(db *database) error {
-	_, err := o.applyDeferredUpdatesLocked(db)
-	return err
-}
-
-func (o *ovsdbClient) applyDeferredUpdatesLocked(db *database) (string, error) {
 	var err error
-	lastTxnID := ""
 	deferred := db.deferredUpdates
 	// clear deferred updates for next time
 	db.deferredUpdates = make([]*bufferedUpdate, 0)
 	for _, update := range deferred {
 		if update.updates != nil {
 			if err = db.cache.Populate(*update.updates); err != nil {
-				return lastTxnID, err
+				return err
 			}
 		}
 
 		if update.updates2 != nil {
 			if err = db.cache.Populate2(*update.updates2); err != nil {
-				return lastTxnID, err
+				return err
 			}
 		}
 		if len(update.lastTxnID) > 0 {
-			lastTxnID = update.lastTxnID
+			db.lastTxnMutex.Lock()
+			if db.lastTxnIDs == nil {
+				db.lastTxnIDs = make(map[string]string)
+			}
+			db.lastTxnIDs[update.cookieID] = update.lastTxnID
+			db.lastTxnMutex.Unlock()
 		}
 	}
-	return lastTxnID, err
+	return err
 }
 
 // Echo tests the liveness of the OVSDB connetion
